@@ -54,6 +54,7 @@ func (s *UDPSession) defaultReadLoop() {
 	}
 	for {
 		n, addr, err := s.conn.ReadFrom(buf)
+		verifYield("readloop.got")
 		if err != nil {
 			s.notifyReadError(errors.WithStack(err))
 			return
@@ -90,6 +91,7 @@ func (l *Listener) defaultMonitor() {
 	buf := make([]byte, mtuLimit)
 	for {
 		n, from, err := l.conn.ReadFrom(buf)
+		verifYield("monitor.got")
 		if err != nil {
 			l.notifyReadError(errors.WithStack(err))
 			return
